@@ -628,6 +628,149 @@ func runTrial(k *vf.Case) {
 	}
 }
 
+// runInstallRace: a small population and 2-32 installers that leave a spin barrier together and install the same
+// SDK providers, each global in a random order. Whoever wins, once all of them have returned every handle
+// obtained before forwards: spans reach the processor, adds reach the reader, the callback runs once a collection.
+func runInstallRace(k *vf.Case) {
+	r := k.R
+	ctx := context.Background()
+	procs := vf.Pick(r, []int{2, 4, 16})
+	runtime.GOMAXPROCS(procs)
+	var tracers []trace.Tracer
+	for i := 0; i < 1+r.Intn(3); i++ {
+		tracers = append(tracers, otel.Tracer(fmt.Sprintf("pre-%d", i)))
+	}
+	preTP := otel.GetTracerProvider()
+	m := otel.Meter("pre")
+	ctr, _ := m.Int64Counter("race.counter")
+	og, _ := m.Int64ObservableGauge("race.gauge")
+	var invoked atomic.Int64
+	if _, err := m.RegisterCallback(func(_ context.Context, o metric.Observer) error {
+		invoked.Add(1)
+		o.ObserveInt64(og, 7)
+		return nil
+	}, og); err != nil {
+		k.Violate("registration-error", "install race", err.Error(), nil)
+		return
+	}
+	sink := &spanSink{names: map[string]int{}}
+	stp := sdktrace.NewTracerProvider(sdktrace.WithSpanProcessor(sink))
+	rdr := sdkmetric.NewManualReader()
+	smp := sdkmetric.NewMeterProvider(sdkmetric.WithReader(rdr))
+	n := vf.Pick(r, []int{2, 3, 4, 8, 16, 32})
+	release := make(chan struct{})
+	focus := r.Intn(3) // the global every installer sets first, so that they contend on the same one
+	var ready atomic.Int32
+	var wg sync.WaitGroup
+	var pmu sync.Mutex
+	var panics []string
+	for i := 0; i < n; i++ {
+		order := []int{0, 1, 2}
+		vf.Shuffle(r, order)
+		for oi, what := range order {
+			if what == focus {
+				order[0], order[oi] = order[oi], order[0]
+			}
+		}
+		spin := r.Intn(400) // staggers the installers by fractions of a microsecond
+		wg.Add(1)
+		go func() {
+			defer wg.Done()
+			defer func() {
+				if rec := recover(); rec != nil {
+					pmu.Lock()
+					panics = append(panics, fmt.Sprint(rec))
+					pmu.Unlock()
+				}
+			}()
+			<-release
+			// those that got a processor align on a bounded spin barrier
+			ready.Add(1)
+			for i := 0; i < 20000 && ready.Load() < int32(min(n, procs)); i++ {
+			}
+			for i := 0; i < spin; i++ {
+				ready.Load()
+			}
+			for _, what := range order {
+				switch what {
+				case 0:
+					otel.SetTracerProvider(stp)
+				case 1:
+					otel.SetMeterProvider(smp)
+				default:
+					otel.SetTextMapPropagator(propagation.TraceContext{})
+				}
+			}
+		}()
+	}
+	finished, stuck, desc := vf.Watch(8*time.Second, 2*time.Second, func() {
+		time.Sleep(time.Millisecond) // every installer is parked on the release channel by now
+		close(release)
+		wg.Wait()
+	})
+	if !finished {
+		if stuck {
+			k.Violate("deadlock", "racing installers", desc, nil)
+		} else {
+			k.C.Inconclusive("install-race case did not finish within the watchdog")
+		}
+		return
+	}
+	for _, p := range panics {
+		k.Violate("panic", "racing installers", p, nil)
+	}
+	for i, tr := range tracers {
+		_, sp := tr.Start(ctx, fmt.Sprintf("post-%d", i))
+		sp.End()
+	}
+	_, sp := preTP.Tracer("late").Start(ctx, "post-late")
+	sp.End()
+	_, sp = otel.Tracer("fresh").Start(ctx, "post-fresh")
+	sp.End()
+	sink.mu.Lock()
+	for _, name := range append([]string{"post-late", "post-fresh"}, func() (ns []string) {
+		for i := range tracers {
+			ns = append(ns, fmt.Sprintf("post-%d", i))
+		}
+		return
+	}()...) {
+		if sink.names[name] != 1 {
+			k.Violate("span-after-install-lost", "racing installers", fmt.Sprintf("%d installers, GOMAXPROCS=%d: span %s reached the installed SDK %d times", n, procs, name, sink.names[name]), nil)
+			break
+		}
+	}
+	sink.mu.Unlock()
+	ctr.Add(ctx, 5)
+	var rm metricdata.ResourceMetrics
+	if err := rdr.Collect(ctx, &rm); err != nil {
+		k.Violate("collect-error", "install race", err.Error(), nil)
+		return
+	}
+	var sum, gauge int64 = -1, -1
+	for _, sm := range rm.ScopeMetrics {
+		for _, md := range sm.Metrics {
+			switch d := md.Data.(type) {
+			case metricdata.Sum[int64]:
+				if md.Name == "race.counter" && len(d.DataPoints) == 1 {
+					sum = d.DataPoints[0].Value
+				}
+			case metricdata.Gauge[int64]:
+				if md.Name == "race.gauge" && len(d.DataPoints) == 1 {
+					gauge = d.DataPoints[0].Value
+				}
+			}
+		}
+	}
+	if sum != 5 || gauge != 7 {
+		k.Violate("measurement-after-install-lost", "racing installers", fmt.Sprintf("%d installers: counter %d (want 5), gauge %d (want 7)", n, sum, gauge), nil)
+	}
+	if got := invoked.Load(); got != 1 {
+		k.Violate("callback-invocations", "racing installers", fmt.Sprintf("%d installers: the callback registered before installation ran %d times in one collection", n, got), nil)
+	}
+	k.C.Count("install_race_trials", 1)
+	k.C.Sig(fmt.Sprintf("install-race|%d|%d|%d", n, procs, focus))
+}
+
 // runInterruptedInstall: the installation is cut short by the application's own fail-fast error handler (it
 // panics, or ends the goroutine) when the SDK rejects an instrument that was created through the global API
 // before. The application carries on: later use of the global metric API neither blocks nor is left unconnected.
@@ -739,13 +882,15 @@ func irOrMax(v uint64) uint64 {
 
 func main() {
 	vf.Main("C16", "exploration", func(c *vf.Ctx) {
-		c.Rule = "one child process per trial: 0-400 instruments of all eight synchronous kinds over 1-4 meters, 0-300 observable instruments each with a RegisterCallback registration and 0-20 tracers are created through the global API; then a barrier releases installer(s) (SetMeterProvider, SetTracerProvider, SetTextMapPropagator) against creators, recorders, unregistrars (including of registrations made before installation) and span starters; a post-phase records on every handle, starts a span on every tracer and collects twice; GOMAXPROCS{2,4,16}; -race; interrupted-install trials (a fail-fast error handler panics or ends the goroutine inside SetMeterProvider, later API use watched). distinct = distinct (population classes, workers, procs, which call kinds truly overlapped the installation) signatures"
+		c.Rule = "one child process per trial: 0-400 instruments of all eight synchronous kinds over 1-4 meters, 0-300 observable instruments each with a RegisterCallback registration and 0-20 tracers are created through the global API; then a barrier releases installer(s) (SetMeterProvider, SetTracerProvider, SetTextMapPropagator) against creators, recorders, unregistrars (including of registrations made before installation) and span starters; a post-phase records on every handle, starts a span on every tracer and collects twice; GOMAXPROCS{2,4,16}; -race; interrupted-install trials (a fail-fast error handler panics or ends the goroutine inside SetMeterProvider, later API use watched); install-race trials (2-32 installers leaving a spin barrier, staggered by sub-microsecond spins, all starting with the same global, small population). distinct = distinct (population classes, workers, procs, which call kinds truly overlapped the installation) signatures"
 		c.Assume = []string{"deadlock = watchdog (8 s) followed by two identical stack samples 2 s apart of goroutines parked inside go.opentelemetry.io/otel frames; anything else that does not finish is inconclusive"}
 		otel.SetErrorHandler(otel.ErrorHandlerFunc(func(error) {}))
 		otel.SetLogger(logr.Discard())
 		n := c.N(480, 10_000)
 		c.Isolated("trials", n, vf.IsoOpts{Batch: 1, Par: 16, Timeout: 90 * time.Second}, runTrial)
 		c.Isolated("interrupted-install", c.N(64, 800), vf.IsoOpts{Batch: 1, Par: 16, Timeout: 90 * time.Second}, runInterruptedInstall)
+		c.Isolated("install-race", c.N(6400, 48_000), vf.IsoOpts{Batch: 1, Par: 16, Timeout: 90 * time.Second}, runInstallRace)
+		c.Floor("install_race_trials", 4000)
 		c.Floor("interrupted_install_trials", 40)
 		c.Floor("installs_interrupted", 40)
 		c.Floor("trials", int64(n*8/10))
